@@ -6,6 +6,7 @@ import (
 	"regexp"
 	"seata.apache.org/seata-go/pkg/datasource/sql/types"
 	"sort"
+	"strconv"
 	"strings"
 	"testing"
 
@@ -77,6 +78,14 @@ func (r *atRun) materialiseForeign(jstart int, acts []foreignAct, g *simkit.Gen)
 		}
 		newVal := func(i int) Val {
 			c := tab.Columns()[i]
+			// a near miss for text columns: another spelling of the number the
+			// column holds now (differs as text, equal when compared as numbers)
+			if strings.Contains(c.DataType, "char") || strings.Contains(c.DataType, "text") {
+				if tw, ok := numericTwin(row[i]); ok {
+					w.Sim.Probe("c09-foreign-write-numeric-twin")
+					return VS(tw)
+				}
+			}
 			switch {
 			case strings.Contains(c.DataType, "int"):
 				return VI(777001)
@@ -144,6 +153,43 @@ func (r *atRun) materialiseForeign(jstart int, acts []foreignAct, g *simkit.Gen)
 		}
 	}
 	return out
+}
+
+// numericTwin: for a text value that reads as a number, a different text that
+// reads as the same float64 ("1.10" -> "1.100", "007" -> "0007", 19 digits ->
+// last digit changed).
+func numericTwin(v interface{}) (string, bool) {
+	var s string
+	switch x := v.(type) {
+	case string:
+		s = x
+	case []byte:
+		s = string(x)
+	default:
+		return "", false
+	}
+	if s == "" || strings.TrimSpace(s) != s {
+		return "", false
+	}
+	f, err := strconv.ParseFloat(s, 64)
+	if err != nil {
+		return "", false
+	}
+	var tw string
+	switch {
+	case len(s) >= 17 && strings.Trim(s, "0123456789") == "":
+		last := s[len(s)-1]
+		nl := byte('0' + (last-'0'+1)%10)
+		tw = s[:len(s)-1] + string(nl)
+	case strings.Contains(s, ".") && !strings.ContainsAny(s, "eE"):
+		tw = s + "0"
+	default:
+		tw = "0" + s
+	}
+	if g, err := strconv.ParseFloat(tw, 64); err != nil || g != f || tw == s {
+		return "", false
+	}
+	return tw, true
 }
 
 func valOf(v interface{}) Val {
